@@ -381,13 +381,32 @@ func init() {
 		MaxSteps: 100000,
 		Body: func(x *vs.X) {
 			k := 1 + vs.Choose("len", cfgInt(x, "maxlen", 3))
+			// conc: the polls of a period arrive together (their handlers overlap) instead of one after the other
+			conc := x.Cfg["conc"] == "1"
 			var seq []c19Poll
 			for i := 0; i < k; i++ {
-				seq = append(seq, c19Poll{ipAddrs[vs.Choose("addr", len(ipAddrs))], ipTypes[vs.Choose("type", len(ipTypes))], []string{NATUnrestricted, NATRestricted}[vs.Choose("nat", 2)]})
+				na, nt := len(ipAddrs), len(ipTypes)
+				if conc {
+					// interleavings multiply: two addresses, the first proxy types up to cfg "types" (default 3)
+					na, nt = 2, cfgInt(x, "types", 3)
+				}
+				ai := vs.Choose("addr", na)
+				pl := c19Poll{ipAddrs[ai], ipTypes[vs.Choose("type", nt)], ""}
+				if conc {
+					// which of two overlapping polls is "first" is not defined: an address always reports one NAT type
+					pl.nat = []string{NATUnrestricted, NATRestricted}[ai%2]
+				} else {
+					pl.nat = []string{NATUnrestricted, NATRestricted}[vs.Choose("nat", 2)]
+				}
+				seq = append(seq, pl)
 			}
 			// the next period: nobody / the first proxy of the first period again / a proxy not seen before
 			var seq2 []c19Poll
-			switch vs.Choose("second-period", 3) {
+			n2 := 3
+			if conc {
+				n2 = 2 // nobody, or the first proxy again
+			}
+			switch vs.Choose("second-period", n2) {
 			case 1:
 				seq2 = []c19Poll{seq[0]}
 			case 2:
@@ -406,10 +425,14 @@ func init() {
 			w.ctx.metrics.logger = log.New(&buf, "", 0)
 			for period, sq := range [][]c19Poll{seq, seq2} {
 				ref := c19Period{perType: map[string]map[string]bool{}, nat: map[string]map[string]bool{}}
-				for _, pl := range sq {
+				for pi, pl := range sq {
 					p := w.addProxy(pl.nat, pl.typ, 0, 0, ansNever)
 					p.remote = pl.addr + ":4000"
-					w.runProxy(p)
+					if conc {
+						vs.GoRole(fmt.Sprintf("poll%d.%d", period, pi), vs.RoleRequest, func() { w.runProxy(p) })
+					} else {
+						w.runProxy(p)
+					}
 					typ := pl.typ
 					if !messages.KnownProxyTypes[typ] {
 						typ = "unknown"
